@@ -283,23 +283,30 @@ class C02(Check):
                'cssutils/css/csscharsetrule.py', 'cssutils/css/cssunknownrule.py', 'cssutils/css/cssvariablesrule.py',
                'cssutils/css/cssvariablesdeclaration.py', 'cssutils/css/selectorlist.py',
                'cssutils/util.py', 'cssutils/helper.py', 'cssutils/tokenize2.py')
-    rule = ('(1) abstract sheets of the documented grammar (c02_gen: style, @media nested, @import, @namespace, @page with '
-            'margin boxes, @font-face, @charset, unknown at-rules, comments; CSS3 selectors; values of every component kind '
-            'incl. calc()) x structure-level spellings of Model/SheetSpec.lean (c02_struct: S/COMMENT gaps at every gap of '
-            'every statement, case + simple escapes of at-keywords / property names / priority, quote style and url() form of '
-            'strings, stand-alone and optional semicolons) at 5 levels x inner spellings of c02_gen; (2) the same abstract '
+    rule = ('(1) abstract sheets of the documented grammar (c02_gen: style, @media nested and named, @import plain and named, '
+            '@namespace, @variables (0-3 variables, c02_struct), @page with margin boxes, @font-face, @charset, unknown '
+            'at-rules, comments; CSS3 selectors; values of every component kind incl. calc()) x structure-level spellings of '
+            'Model/SheetSpec.lean (c02_struct: S/COMMENT gaps at every gap of every statement, case + simple escapes of '
+            'at-keywords / property names / variable names / priority, quote style and url() form of strings, stand-alone '
+            'and optional semicolons) at 5 levels x inner spellings of c02_gen, the level-3 ones parsed with validation off '
+            'as well; (1b) declaration blocks alone x 2 spellings x comment parsing on / off (tokens given to '
+            'CSSStyleDeclaration; CSSParser.parseStyle as oracle); (2) the same abstract '
             'sheets x canonical rendering + N random text spellings x parser options (metamorphic oracle); (3) generated '
             'strings for helper.normalize; (4) a corpus of past harness failures. non-trivial = distinct (abstract sheet, '
             'spelling) whose text differs from the canonical one')
 
     trusted_base = (
         'Model/Struct.lean (K2, by C04) + Model/AtRules.lean (setters of @import / @namespace / @font-face / @page / margin '
-        'box, @charset encoding) + Model/SheetSpec.lean (`projSheet`, `render`, `erase`): hand-written, tied to the code by '
+        'box / @variables on its fragment, @charset encoding, the name setters) + Model/ParseCfg.lean (the two parser '
+        'options) + Model/SheetSpec.lean (`projSheet`, `render`, `erase`): hand-written, tied to the code by '
         'the correspondence of this run on well-formed sheets: render(spelled sheet) = tokens of the real tokenizer on the '
         'text; projSheet(parseSheet(tokens)) = the abstract sheet = the projection of the real DOM',
         'selectors, values and media query lists are opaque: every theorem holds for every oracle that accepts them as '
         'written; in the correspondence the opaque token lists the model shows are given to the REAL Selector / '
         'PropertyValue / MediaList, so a difference can only come from the structure level',
+        'CSSVariablesDeclaration._setCssText is a ProdParser run that hands the token iterator to PropertyValue; it is '
+        'modelled on the fragment {S|COMMENT}* [IDENT gap ":" gap value (";"|end) gap]* (Model/AtRules.lean varsLoop), '
+        '`unmodelled` outside of it (stand-alone ";", missing ":", rejected value)',
         'MarginRule._setCssText is a ProdParser run; it is modelled on the fragment "@margin {S|COMMENT}* { tokens other '
         'than at-keywords / INVALID / EOF } }" (Model/AtRules.lean marginBody), `unmodelled` outside of it',
         'Model/Normalize.lean: hand model of cssutils.helper.normalize, differential testing over generated strings',
@@ -446,7 +453,7 @@ class C02(Check):
                 # abstract sheet says, or the model/driver is wrong
                 ctx.disagree('projSheet(parseSheet(tokenize text)) vs abstract sheet', inp, first_diff(got, want), None)
                 continue
-            if level in (1, 3):
+            if level == 3:
                 # the tie of `validate_irrelevant`: the same text parsed with validation off gives the same DOM
                 ctx.count('struct-validate-off')
                 real_off = real_struct(text, validate=False)
